@@ -477,12 +477,12 @@ def _emit_two_level(fam, sid, n, edges, design, all_atom, legacy, rng, virtual=(
             'valid': True, 'design': design, 'bonds': bonds, 'tags': tg}
 
 
-def two_level_cases(tier, seed):
+def two_level_cases(tier, seed, reps=None):
     """Exhaustive part (independent of the seed): every connected graph up to N nodes x order variants x
     designs x {all-atom, coarse} x {legacy, not}; the random choices inside a design are taken from a
     generator seeded by the case index, not by `seed`.  Seeded random part afterwards."""
     max_n = 4 if tier == 'quick' else 5
-    reps = 1 if tier == 'quick' else 3
+    reps = reps or (2 if tier == 'quick' else 3)
     count = 0
     for n, edges0 in connected_graphs(max_n):
         m = len(edges0)
@@ -519,7 +519,7 @@ def two_level_cases(tier, seed):
     yield from multiplied_cases(tier)
     # seeded random part: larger trees with extra ring edges
     rng = random.Random(seed * 104729 + 7)
-    for i in range(60 if tier == 'quick' else 1500):
+    for i in range(60 if tier == 'quick' else 4000):
         n = rng.randint(5, 8)
         edges = [(rng.randrange(j), j) for j in range(1, n)]
         for _ in range(rng.choice((0, 0, 1, 2))):
@@ -810,7 +810,7 @@ def layered_cases(tier, seed):
     yield from layered_polymers(tier)
     # seeded random part
     rng = random.Random(seed * 7919 + 3)
-    for i in range(40 if tier == 'quick' else 1200):
+    for i in range(60 if tier == 'quick' else 3000):
         n = rng.randint(4, 9)
         edges = [(rng.randrange(j), j) for j in range(1, n)]
         for _ in range(rng.choice((0, 0, 1))):
